@@ -486,6 +486,10 @@ def main(argv=None):
         print("KNOWN-FINDING: property=%s %s [%s; matched %d generated case(s) in this run]"
               % (prop_id, k["what"], k["id"], known_hits.get(k["id"], 0)))
     rep_dir = os.path.join(HERE, "replays", prop_id)
+    if os.path.isdir(rep_dir) and not a.only:
+        for fn in os.listdir(rep_dir):     # replays of earlier runs are stale
+            if fn.endswith(".json"):
+                os.remove(os.path.join(rep_dir, fn))
     vio_paths = []
     for f in failures:
         os.makedirs(rep_dir, exist_ok=True)
